@@ -17,7 +17,7 @@ RULE = ("Each case runs a real hio Server/ServerTls with an echo loop and two Cl
         "close with unread data (RST), client vanishing mid-handshake, client resetting its connection and at once reconnecting from the same port and dropping that handshake, server-side remoter closed. The thorough tier additionally "
         "sweeps every (errno, op, side, call index < 6, plain/TLS) combination once. Oracle: no service() call raises; the endpoint "
         "that met the fault is marked cutoff - the client right after the service() call in which it fired, on the server side the very remoter whose socket failed - (server-side handshake: aborted; client-side handshake: not connected and cutoff or "
-        "closed); the other connection's echo traffic completes within the drain bound. Non-trivial: the fault fired while payload "
+        "closed); the other connection's echo traffic completes within the drain bound, and (plain, server-side fault) if it had bytes waiting in the very service round of the fault it was read in that round. Non-trivial: the fault fired while payload "
         "bytes or handshake records of that connection were in flight. Distinct: digest of (config, fault, executed actions).")
 COMPONENTS = dict(real=["hio.core.tcp.clienting.Client/ClientTls", "hio.core.tcp.serving.Server/ServerTls/Remoter/RemoterTls", "OpenSSL engine"],
                   stub=["kernel sockets (FakeSocket)", "SSLSocket glue (SimSSLSocket)"])
@@ -105,6 +105,7 @@ def run_case(tape, tier):
         remoters = {}        # sid -> remoter (server side objects ever seen)
         stopped = [False, False]   # client no longer serviced by the check (after a handshake fault we look at it at once)
         fired = [None]       # (owner, sid, op) of the injected fault when it fires
+        skipped = []         # siblings not serviced in the round of the fault
         inflight_at_fault = [False]
         snap = [None]
 
@@ -123,11 +124,27 @@ def run_case(tape, tier):
                 # which socket was hit: the one that got reset last
                 fired[0] = True
 
+        def unread_by_socket():
+            out = {}
+            for rm in list(lab.server.ixes.values()):
+                raw = getattr(rm.cs, "sock", rm.cs) if rm.cs is not None else None
+                if raw is not None and raw.inp is not None and getattr(rm, "connected", True) and not rm.cutoff:
+                    out[raw.sid] = (raw, len(raw.inp.rx), raw.inp.total_read)
+            return out
+
         def service(who, i=None):
             pend = fault_pending()
+            before = unread_by_socket() if (who == "server" and pend and fault["side"] == "server" and not tls) else None
             try:
                 if who == "server":
                     lab.svc_server()
+                    if before is not None and not fault_pending():
+                        # the round in which one connection failed: the others, if they had bytes waiting, were still read
+                        for sid, (raw, n0, read0) in before.items():
+                            if not raw.got_injected and n0 > 0 and raw.inp.total_read == read0 and raw.state == "connected":
+                                skipped.append("connection from port %s had %d unread bytes in the service round in which another "
+                                               "connection failed with %s and was not read in that round" % (
+                                                   raw.raddr[1] if raw.raddr else "?", n0, cfg["fault"].get("code")))
                     for ca, ix in list(lab.server.ixes.items()):
                         if ix.rxbs and not ix.cutoff:
                             ix.tx(bytes(ix.rxbs))
@@ -251,6 +268,8 @@ def run_case(tape, tier):
         if raised:
             who, tname, msg = raised[0]
             res.violate("service-raised", "%s.service() raised %s: %s (fault %s)" % (who, tname, msg, cfg["fault"]))
+        elif skipped:
+            res.violate("sibling-skipped", skipped[0])
         else:
             # which connection was affected?
             if fault["kind"] == "errno" and fired[0] is not None:
